@@ -1684,6 +1684,11 @@ impl UnifiedCommandExecutor {
     fn execute_bit(&self, db: usize, cmd: BitCommand) -> Result<RespFrame> {
         match cmd {
             BitCommand::GetBit { key, offset } => {
+                // the highest bit offset of a 512 MB string is 2^32 - 1, as for SETBIT
+                if offset >= (1usize << 32) {
+                    return Err(FerrousError::Command(CommandError::Generic(
+                        "bit offset is not an integer or out of range".to_string())));
+                }
                 match self.storage.get_string(db, &key)? {
                     Some(value) => {
                         let byte_offset = offset / 8;
